@@ -37,7 +37,7 @@ def io_under_asan(ctx):
 
     def report(stage, rc, outs, lines):
         nxt = lines[min(len(outs), len(lines) - 1)][:4000]
-        san = [o for o in outs if "Sanitizer" in o or "runtime error" in o]
+        san = [o for o in pv.LAST_STDERR[0].splitlines() if "Sanitizer" in o or "runtime error" in o]
         ctx.violation("io-asan-" + stage, {"kind": "sanitizer", "stage": stage, "rc": rc, "case": nxt, "driver": impl_a,
                                            "sanitizer_lines": san[:5], "witness": "io-asan :: " + stage + " :: " + nxt[:200],
                                            "replay_hint": "echo '<case>' | ASAN_OPTIONS=%s %s" % (env.get("ASAN_OPTIONS", ""), impl_a)},
@@ -84,13 +84,9 @@ def run(ctx):
     c10mod.run_fault(ctx, "asan", 7 if ctx.quick() else 70)
     tc.optional_part(ctx, "frontend", "run_part", 3000 if ctx.quick() else 40000)
     io_under_asan(ctx)
-    for part in (("progcheck", "run_mode", ("grad", 300 if ctx.quick() else 5000), {"variant": "asan"}),):
-        try:
-            r = tc.optional_part(ctx, part[0], part[1], *part[2], **part[3])
-            if r is not None:
-                ctx.cov["program_level_asan"] = r
-        except TypeError:
-            pass
+    r = tc.optional_part(ctx, "progcheck", "run_mode", "grad", 300 if ctx.quick() else 5000, variant="asan")
+    if r is not None:
+        ctx.cov["program_level_asan"] = r
     ctx.cov["rule"] = ("cases = every modelled Device entry point (forward, backward, in-place) incl. rejected calls, run (1) on allocator-overriding Naive/Eigen devices with 64-byte guard zones, "
                        "a NaN poison pattern in fresh buffers (an output still containing it was not fully written) and a live-block counter that must be zero after each case, "
                        "(2) under AddressSanitizer+UBSan with leak detection; outputs compared bitwise with the model; non-trivial = distinct accepted cases")
